@@ -36,7 +36,10 @@ META = {
                    'C01_translated_createValidators_chain_eq_model: col.from_python / col.to_python = toDb / toPy for EVERY column kind; '
                    'C01_translated_selectInit_eq_model: the to_python loop of _SO_selectInit = the model read path for every column '
                    'list and row; C01_translated_roundtrip_* and C01_translated_accepted_readable_partial restate the '
-                   'round trips about the translated source.'),
+                   'round trips about the translated source; C01_translated_setValue_roundtrip / _set_roundtrip / _create_roundtrip: '
+                   'the write paths setattr / set / lazy+syncUpdate / create through the translated plumbing AND the translated '
+                   'validator chains, read back by the translated _SO_getValue, = toPy(fetch(store(lit(toDb v)))) for every class '
+                   'shape, column, kind and value (C01_translated_write_read_* : = v on the proved domains).'),
     'level_note': ('partial for Float, Decimal, Currency, DecimalString, Pickle, JSON, Uuid: repr(float), Decimal, pickle, json, '
                    'UUID are uninterpreted tokens; only the glue is proved, end-to-end behaviour is covered by the '
                    'differential run and the oracle (sampling).'),
@@ -60,8 +63,11 @@ META = {
                     'values, strptime = the model parser on the parsed format text, base64 = the model functions, float and Decimal '
                     'arithmetic uninterpreted, json/pickle/UUID/Decimal-text codecs abstract: a value is identified with its encoding) '
                     'and formencode compound.All order (Model/CodecXChain.lean); raise / assert messages are not evaluated; '
-                    'setattr(self, computed name, v) is observed as a write log; the write-side plumbing of main.py (_SO_setValue, set) '
-                    'is NOT tied to these validators by a proof (PyMain proves it for abstract total codecs over another value type); '
+                    'setattr(self, computed name, v) is observed as a write log; write paths (Model/CodecW.lean header): the plumbing '
+                    '_SO_setValue / set (one keyword) / syncUpdate / _SO_getValue is the pymain.py translation re-targeted at '
+                    'Model/PyMainV.lean (C01 universe, raising validators), the row is lit/evalLit/applyAff/fetch of the model, signals '
+                    'have no listener, the property setter passes the column validators; _create / _SO_finishCreate glue (INSERT of '
+                    '_SO_createValues) is HAND-MODELLED (finishCreateM); '
                     'JsonbValidator (postgres only, no model kind) is not translated',
                     'a float token denotes one double: SQLite parses repr(f) back to f', 'Decimal(d.to_eng_string()) == d, UUID(str(u)) == u, '
                     'json.loads(json.dumps(v)) == v, pickle.loads(pickle.dumps(v)) == v on the generated values',
